@@ -10,6 +10,7 @@ import (
 	sdk "github.com/cosmos/cosmos-sdk/types"
 	sdkerrors "github.com/cosmos/cosmos-sdk/types/errors"
 
+	opchild "github.com/initia-labs/OPinit/x/opchild"
 	opchildtypes "github.com/initia-labs/OPinit/x/opchild/types"
 	ophosttypes "github.com/initia-labs/OPinit/x/ophost/types"
 )
@@ -44,6 +45,7 @@ type c12Follow struct {
 	signer   string
 	bridge   uint64
 	expectOK bool
+	mustFail bool // history-based: the signer lost the role by the stream's own accepted operations
 }
 
 // ------------------------------------------------------------------------------------------
@@ -291,13 +293,13 @@ func (g *c12L1) do(o L1Op, wf bool, expectOK bool, class string) ExecResult {
 	if res.OK && (o.Kind == "uproposer" || o.Kind == "uchallenger") {
 		if o.Kind == "uproposer" && prop0 != o.NewAddr {
 			g.pastProp[o.Bridge] = append(g.pastProp[o.Bridge], prop0)
-			g.queue = append(g.queue, c12Follow{"propose", prop0, o.Bridge, false}, c12Follow{"uoracle", o.NewAddr, o.Bridge, true},
-				c12Follow{[]string{"uproposer", "ubatch", "umeta", "uoracle", "delete"}[g.r.Intn(5)], prop0, o.Bridge, false})
+			g.queue = append(g.queue, c12Follow{"propose", prop0, o.Bridge, false, false}, c12Follow{"uoracle", o.NewAddr, o.Bridge, true, false},
+				c12Follow{[]string{"uproposer", "ubatch", "umeta", "uoracle", "delete"}[g.r.Intn(5)], prop0, o.Bridge, false, false})
 		}
 		if o.Kind == "uchallenger" && chal0 != o.NewAddr {
 			g.pastChal[o.Bridge] = append(g.pastChal[o.Bridge], chal0)
-			g.queue = append(g.queue, c12Follow{"uchallenger", chal0, o.Bridge, false}, c12Follow{"delete", o.NewAddr, o.Bridge, false},
-				c12Follow{"delete", chal0, o.Bridge, false})
+			g.queue = append(g.queue, c12Follow{"uchallenger", chal0, o.Bridge, false, false}, c12Follow{"delete", o.NewAddr, o.Bridge, false, false},
+				c12Follow{"delete", chal0, o.Bridge, false, false})
 		}
 	}
 	return res
@@ -350,6 +352,9 @@ type c12L2 struct {
 	r          *Rng
 	pastExecs  []string
 	pastAdmins []string
+	evs        []string // the history as Model/C12Spec events (messages and block ends)
+	nextPlanH  int64
+	mustFail   bool
 	queue      []c12Follow
 	baseAddr   string
 	bound      *opchildtypes.BridgeInfo
@@ -357,7 +362,7 @@ type c12L2 struct {
 	sawERR     bool
 }
 
-const c12L2Header = `Require Import Model.Bytes Model.Obs Model.Bank Model.Valset Model.L2 Model.TraceL2 Model.TraceC12.
+const c12L2Header = `Require Import Model.Bytes Model.Obs Model.Bank Model.Valset Model.L2 Model.TraceL2 Model.TraceC12 Model.C12Spec.
 From Coq Require Import List NArith ZArith String.
 Import ListNotations.
 Local Open Scope string_scope.
@@ -629,7 +634,19 @@ func (g *c12L2) probe(kind string, signer string, depth int) (L2Op, bool) {
 	switch kind {
 	case "fdep":
 		n1, _ := e.K.GetNextL1Sequence(e.Ctx)
-		o = sc.Deposit(signer, n1, g.other(signer), r.Intn(2), big.NewInt(int64(1+r.Intn(20))), Hook{Kind: "none"})
+		seq := n1
+		if depth == 0 {
+			switch r.Weighted([]int{50, 32, 18}) {
+			case 1: // stale: already processed (a NOOP for an executor, refused for anybody else)
+				if n1 > 1 {
+					seq = 1 + uint64(r.Intn(int(n1-1)))
+				}
+			case 2: // ahead of the next expected sequence
+				seq = n1 + 1 + uint64(r.Intn(3))
+				wf = false
+			}
+		}
+		o = sc.Deposit(signer, seq, g.other(signer), r.Intn(2), big.NewInt(int64(1+r.Intn(20))), Hook{Kind: "none"})
 		o.From = g.other(signer) // an L2 role holder's string in the L1-sender field
 	case "setinfo":
 		rp := 0
@@ -717,7 +734,105 @@ func (g *c12L2) probe(kind string, signer string, depth int) (L2Op, bool) {
 	return o, wf
 }
 
-func l2OpsHuman(ops []L2Op) []string { return opsCoq(ops) }
+func c12PlanCoq(o L2Op) string {
+	if o.Seq == 0 {
+		return "EEnd None"
+	}
+	ex := []string{}
+	for _, x := range o.Params.Execs {
+		ex = append(ex, coqStr(x))
+	}
+	return fmt.Sprintf("EEnd (Some {| pl_op := %s; pl_key := %s; pl_execs := %s |})", coqU(o.OpID), coqU(o.KeyID), coqList(ex))
+}
+
+func c12EvCoq(o L2Op) string {
+	if o.Kind == "endplan" {
+		return c12PlanCoq(o)
+	}
+	return "EMsg (" + o.Coq() + ")"
+}
+
+func l2OpsHuman(ops []L2Op) []string {
+	internOff = true
+	defer func() { internOff = false }()
+	out := make([]string, len(ops))
+	for i, o := range ops {
+		out[i] = c12EvCoq(o)
+	}
+	return out
+}
+
+// the case as (l2case with no ops, event list)
+func (g *c12L2) coq() string {
+	ops := g.c.Ops
+	g.c.Ops = nil
+	t := g.c.Coq()
+	g.c.Ops = ops
+	t = strings.Replace(t, ",\n {| c_table", ",\n ({| c_table", 1)
+	t = strings.Replace(t, " |},\n [", " |}, [\n      "+strings.Join(g.evs, ";\n      ")+"]),\n [", 1)
+	return t
+}
+
+// an executor-change plan registered for a fresh height and the end blocker of that height
+func (g *c12L2) endPlan(execs []string) {
+	e, c, rep := g.sc.Env, g.c, g.rep
+	if g.nextPlanH == 0 {
+		g.nextPlanH = 1000
+	}
+	H := g.nextPlanH
+	g.nextPlanH++
+	js, err := e.Enc.Marshaler.MarshalInterfaceJSON(e.ValKeys[4])
+	if err != nil {
+		panic(err)
+	}
+	_, before, _ := g.roles()
+	rerr := func() (err error) {
+		defer func() {
+			if x := recover(); x != nil {
+				err = fmt.Errorf("panic: %v", x)
+			}
+		}()
+		return e.K.RegisterExecutorChangePlan(uint64(H), uint64(H), e.ValOps[4].String(), "m", string(js), "info", execs)
+	}()
+	o := L2Op{Kind: "endplan", OpID: 5, KeyID: 5, Params: &L2Params{Execs: execs}, Height: uint64(H)}
+	if rerr == nil {
+		o.Seq = 1
+	}
+	g.sc.register(execs...)
+	res := execAtomic(e.Ctx.WithBlockHeight(H), func(ctx sdk.Context) (interface{}, error) {
+		_, err := opchild.EndBlocker(ctx, e.K)
+		return nil, err
+	})
+	c.Ops = append(c.Ops, o)
+	c.Results = append(c.Results, res)
+	g.evs = append(g.evs, c12PlanCoq(o))
+	verdict := "END-ERR"
+	if res.OK {
+		verdict = "END-OK"
+	}
+	c.Obs = append(c.Obs, ol(OS{verdict}, c12L2Extra(e)))
+	i := len(c.Ops) - 1
+	rep.Hist(fmt.Sprintf("l2:endplan:registered=%v:n=%d:%s", rerr == nil, len(execs), verdict))
+	g.checkBinding(i)
+	if rerr != nil || !res.OK {
+		return
+	}
+	// model-free: after the plan height the executor list is exactly the plan's list
+	_, after, _ := g.roles()
+	if strings.Join(after, ",") != strings.Join(execs, ",") {
+		rep.Violate(Violation{Case: c.ID, Step: i, What: fmt.Sprintf("after the executor-change plan with executors %v the executor list is %v", execs, after), Sig: "C12:plan-executors-not-installed", Ops: l2OpsHuman(c.Ops[:i+1])})
+	}
+	// the old and the new holders at once; "old" by the plan (history), not by what the params now say
+	for _, x := range before {
+		if !g.isExec(x, execs) && g.decode(x) != nil {
+			g.pastExecs = append(g.pastExecs, x)
+			g.queue = append(g.queue, c12Follow{kind: "fdep", signer: x, mustFail: true}, c12Follow{kind: "setinfo", signer: x, mustFail: true})
+		}
+	}
+	for _, x := range execs {
+		g.queue = append(g.queue, c12Follow{kind: "setinfo", signer: x, expectOK: true})
+	}
+}
 
 func (g *c12L2) checkBinding(i int) {
 	e := g.sc.Env
@@ -813,6 +928,7 @@ func (g *c12L2) do(o L2Op, wf, expectOK bool, class string) ExecResult {
 		rep.Violate(Violation{Case: c.ID, Step: len(c.Ops), What: fmt.Sprintf("ExecuteMessages succeeded but is not the inner messages applied one by one (every inner message succeeds alone in order: %v)", innerAllOK), Sig: "C12:batch-not-all-or-nothing", Ops: l2OpsHuman(append(c.Ops, o))})
 	}
 	c.Ops = append(c.Ops, o)
+	g.evs = append(g.evs, c12EvCoq(o))
 	c.Results = append(c.Results, res)
 	c.Obs = append(c.Obs, ol(e.L2Obs(c.Track, res), c12L2Extra(e)))
 	i := len(c.Ops) - 1
@@ -826,6 +942,10 @@ func (g *c12L2) do(o L2Op, wf, expectOK bool, class string) ExecResult {
 	rep.Hist("l2:" + o.Kind + ":" + verdict)
 	rep.Hist("l2-signer:" + class + ":" + verdict)
 	hist := func() []string { return l2OpsHuman(c.Ops[:i+1]) }
+	if res.OK && g.mustFail {
+		rep.Violate(Violation{Case: c.ID, Step: i, What: fmt.Sprintf("%s by %s succeeded although an executor-change plan removed it from the executor list", o.Kind, o.Sender), Sig: "C12:l2-ok-not-allowed", Ops: hist()})
+	}
+	g.mustFail = false
 	if res.OK && !allowed {
 		rep.Violate(Violation{Case: c.ID, Step: i, What: fmt.Sprintf("%s by %s succeeded although the signer is not allowed (admin %s, executors %v, authority %s)", o.Kind, o.Sender, admin, execs, auth), Sig: "C12:l2-ok-not-allowed", Ops: hist()})
 	}
@@ -835,10 +955,13 @@ func (g *c12L2) do(o L2Op, wf, expectOK bool, class string) ExecResult {
 	if !res.OK && prev != nil {
 		stateOf := func(v Ov) string {
 			l := v.(OL)
-			base := l.V[0].(OL)
+			base, isMsg := l.V[0].(OL)
+			if !isMsg {
+				return ""
+			}
 			return (OL{base.V[1:7]}).Coq() + l.V[1].Coq()
 		}
-		if stateOf(prev) != stateOf(c.Obs[i]) {
+		if stateOf(prev) != "" && stateOf(prev) != stateOf(c.Obs[i]) {
 			rep.Violate(Violation{Case: c.ID, Step: i, What: "a refused " + o.Kind + " changed the state (partial execution)", Sig: "C12:err-changed-state", Ops: hist()})
 		}
 	}
@@ -848,17 +971,17 @@ func (g *c12L2) do(o L2Op, wf, expectOK bool, class string) ExecResult {
 		admin2, execs2, _ := g.roles()
 		if admin2 != admin {
 			g.pastAdmins = append(g.pastAdmins, admin)
-			g.queue = append(g.queue, c12Follow{"exec", admin, 0, false}, c12Follow{"exec", admin2, 0, true})
+			g.queue = append(g.queue, c12Follow{"exec", admin, 0, false, false}, c12Follow{"exec", admin2, 0, true, false})
 		}
 		for _, x := range execs {
 			if !g.isExec(x, execs2) {
 				g.pastExecs = append(g.pastExecs, x)
-				g.queue = append(g.queue, c12Follow{[]string{"fdep", "setinfo"}[g.r.Intn(2)], x, 0, false})
+				g.queue = append(g.queue, c12Follow{[]string{"fdep", "setinfo"}[g.r.Intn(2)], x, 0, false, false})
 			}
 		}
 		for _, x := range execs2 {
 			if !g.isExec(x, execs) && g.decode(x) != nil {
-				g.queue = append(g.queue, c12Follow{"setinfo", x, 0, true})
+				g.queue = append(g.queue, c12Follow{"setinfo", x, 0, true, false})
 			}
 		}
 	}
@@ -907,7 +1030,7 @@ func (g *c12L2) oracleProbe() {
 	}
 }
 
-func c12L2Case(seed uint64, id int, nProbes int, rep *Report) *L2Case {
+func c12L2Case(seed uint64, id int, nProbes int, rep *Report) *c12L2 {
 	sc := NewL2Scenario(seed, id, false)
 	g := &c12L2{sc: sc, c: sc.Case, rep: rep, r: sc.R, baseAddr: sc.Env.User(1).Str}
 	e, r := sc.Env, sc.R
@@ -916,6 +1039,36 @@ func c12L2Case(seed uint64, id int, nProbes int, rep *Report) *L2Case {
 	for n := 0; n < nProbes; n++ {
 		if n%12 == 11 {
 			g.oracleProbe()
+		}
+		if n%20 == 13 {
+			// an executor-change plan and the end blocker of its height: empty, one-element and
+			// longer lists (the model replays it as an EEnd event)
+			var pl []string
+			switch r.Weighted([]int{30, 40, 25, 5}) {
+			case 1:
+				pl = []string{e.User(uint64(1 + r.Intn(6))).Str}
+			case 2:
+				pl = []string{e.User(uint64(1 + r.Intn(6))).Str, e.User(uint64(1 + r.Intn(6))).Str}
+			case 3:
+				pl = []string{e.User(1).Str, "notanaddress"}
+			}
+			g.endPlan(pl)
+			continue
+		}
+		if n%7 == 3 {
+			// deposit finalization by somebody who is NOT a listed executor, all three sequence
+			// classes (stale sequences only exist once a deposit has been finalized)
+			who := g.cand([]int{2, 8, 3, 5}[r.Intn(4)])
+			_, execs, _ := g.roles()
+			if !g.isExec(who, execs) {
+				o, _ := g.probe("fdep", who, 0)
+				n1, _ := e.K.GetNextL1Sequence(e.Ctx)
+				if n1 > 1 && r.Chance(60) {
+					o.Seq = 1 + uint64(r.Intn(int(n1-1)))
+				}
+				g.do(o, false, false, "non-executor-deposit")
+				continue
+			}
 		}
 		if n%15 == 14 {
 			// the client id: blank it, then point it elsewhere (two messages of a listed executor)
@@ -991,6 +1144,7 @@ func c12L2Case(seed uint64, id int, nProbes int, rep *Report) *L2Case {
 			default:
 				o, _ = g.probe(f.kind, f.signer, 0)
 			}
+			g.mustFail = f.mustFail
 			g.do(o, wf && f.expectOK, f.expectOK, "after-rotation")
 			continue
 		}
@@ -1000,7 +1154,7 @@ func c12L2Case(seed uint64, id int, nProbes int, rep *Report) *L2Case {
 		o, wf := g.probe(kind, signer, 0)
 		g.do(o, wf, false, c12L2Classes[class])
 	}
-	return g.c
+	return g
 }
 
 func genC12(seed uint64, tier string, outdir string) *Report {
@@ -1029,7 +1183,8 @@ func genC12(seed uint64, tier string, outdir string) *Report {
 		l1texts = append(l1texts, c.Coq())
 	}
 	for k := 0; k < nCases; k++ {
-		c := c12L2Case(seed*104729+uint64(k), 1000+k+1, nProbes, rep)
+		g2 := c12L2Case(seed*104729+uint64(k), 1000+k+1, nProbes, rep)
+		c := g2.c
 		rep.Ops += len(c.Ops)
 		ok, er := false, false
 		for _, r := range c.Results {
@@ -1043,10 +1198,10 @@ func genC12(seed uint64, tier string, outdir string) *Report {
 		if k == 0 {
 			rep.Sample(map[string]interface{}{"kind": "L2 signer probes (first 8 ops)", "ops": l2OpsHuman(c.Ops[:8])})
 		}
-		l2texts = append(l2texts, c.Coq())
+		l2texts = append(l2texts, g2.coq())
 	}
 	writeShards(outdir, "C12L1", l1CaseHeader, "run_l1case", "l1case", l1texts, 8, rep)
-	writeShards(outdir, "C12L2", c12L2Header, "run_c12l2case", "l2case", l2texts, 8, rep)
+	writeShards(outdir, "C12L2", c12L2Header, "run_c12evcase", "(l2case * list l2ev)", l2texts, 8, rep)
 	rep.Notes = append(rep.Notes, "opchild MsgUpdateOracle is outside the model (success needs a signed L1 commit); its executor guard is probed on discarded branches by error class only")
 	return rep
 }
